@@ -319,7 +319,10 @@ def impl_hist(ops):
                 patts = [to_patt(b) for b in basis]
                 mode = sum(len(x[1]) for x in basis) % 3
                 if mode == 0 or any(b[0] == "m" for b in basis):
-                    av = Av.from_iterable(patts)
+                    arg = list(patts)
+                    av = Av.from_iterable(arg)
+                    arg.append(Perm((0,)))      # the caller's list changes afterwards: the class must not
+                    arg.clear()
                 elif mode == 1:
                     av = Av(Basis(*patts))
                 else:
@@ -344,7 +347,12 @@ def impl_hist(ops):
             if k == "U":
                 return canon_full(classes[f[1]].up_to_length(int(f[2])))
             if k == "E":
-                return fseq(classes[f[1]].enumeration(int(f[2])))
+                # the caller empties the returned list; a repeated call must not be affected
+                r1 = classes[f[1]].enumeration(int(f[2]))
+                keep = list(r1)
+                r1.clear()
+                r2 = classes[f[1]].enumeration(int(f[2]))
+                return fseq(keep) if list(r2) == keep else "UNSTABLE:%s|%s" % (fseq(keep), fseq(r2))
             if k == "F":
                 return canon_partial(classes[f[1]].first(int(f[2])), members[f[1]])  # f[3] (tag) unused
             if k == "B":
